@@ -135,7 +135,7 @@ let handle toks = match toks with
       let s = str_tok t in
       String.concat "" (List.map (fun a -> bool01 (isdigit_c a)) s) ^ " " ^ bool01 (is_hex s) ^ " " ^ bool01 (is_alnum_lower s)
   | "OKS" :: r -> let (t, _) = parse_term r in
-      bool01 (dec_ok t) ^ " " ^ bool01 (single t) ^ " " ^ bool01 (wf t) ^ " " ^ bool01 (tupl_single t) ^ " " ^ bool01 (productive t)
+      bool01 (dec_ok t) ^ " " ^ bool01 (single t) ^ " " ^ bool01 (wf t) ^ " " ^ bool01 (tupl_single t) ^ " " ^ bool01 (productive t) ^ " " ^ bool01 (reenc_ok t)
   | ["UM"; url] ->
       (match url_match (str_tok url) with
        | None -> "N"
